@@ -326,6 +326,8 @@ pub struct Loggers {
     pub postfix: BTreeMap<String, (u32, V)>,
     /// infix operators registered as SETTER: `x op e` binds x to the handler's result
     pub setters: BTreeMap<String, (u32, V)>,
+    /// handlers return List[id, operands...] instead of their preset (C08)
+    pub echo: bool,
 }
 
 #[derive(Clone, Debug, Default)]
@@ -354,9 +356,14 @@ impl Model {
     }
 
     fn logger(&mut self, id: u32, args: Vec<V>, ret: &V) -> Res {
-        self.log.push((id, args));
+        self.log.push((id, args.clone()));
         if self.fault_at == Some(self.log.len() - 1) {
             return Err(Stop::Fault);
+        }
+        if self.loggers.echo {
+            let mut v = vec![V::int(id as i64)];
+            v.extend(args);
+            return Ok(V::List(v));
         }
         Ok(ret.clone())
     }
@@ -432,7 +439,7 @@ impl Model {
                 self.ctx.insert(name, Binding::Var(v));
                 Ok(V::None)
             }
-            R::Infix(op, l, rr) if is_assign(op) => {
+            R::Infix(op, l, rr) if is_assign(op) && !self.loggers.infix.contains_key(op) => {
                 let name = match &**l {
                     R::Ref(n) => n.clone(),
                     _ => return Err(err("assign-target")),
